@@ -30,7 +30,10 @@ Inductive pa :=
 | PInt (z : Z)
 | PDbl (text : string) (n : Z) (d : positive)
 | PMeth (m : string)
-| PBin (op : string) (a b : pa).
+| PBin (op : string) (a b : pa)
+| PDiv (a b : pa)                      (* a / b : Python's true division *)
+| PNeg (a : pa)                        (* -a *)
+| PFun (f : string) (a : pa).          (* one-argument math function, f the C++ name (std::sqrt ...) *)
 Record pred := { p_op : string; p_l : pa; p_r : pa }.
 (* the terminal over the filtered collection: Count() or Select(lambda x: body).Sum() *)
 Inductive aggk := ACount | ASum (body : pa).
@@ -42,7 +45,12 @@ Fixpoint pa_type (a : pa) : string :=
   | PInt _ => "int"
   | PDbl _ _ _ | PMeth _ => "double"
   | PBin _ x y => if String.eqb (pa_type x) "int" && String.eqb (pa_type y) "int" then "int" else "double"
+  | PDiv _ _ | PFun _ _ => "double"
+  | PNeg x => pa_type x
   end.
+(* visit_BinOp for `/`: the left operand is cast to double unless an operand already is one (then the usual
+   arithmetic conversions of C++ make the division a floating one) *)
+Definition div_needs_cast (x y : pa) : bool := negb (String.eqb (pa_type x) "double" || String.eqb (pa_type y) "double").
 (* accumulator type: int for Count; for Sum the type of the summand (most_accurate_type [int, summand]) *)
 Definition agg_type (k : cnt) : string :=
   match k_agg k with ACount => "int" | ASum body => pa_type body end.
@@ -85,6 +93,9 @@ Fixpoint tpa (iv : string) (arrow : bool) (a : pa) : cexp :=
   | PDbl t n d => CDbl t n d
   | PMeth m => CMeth (CVar iv) arrow m CNil
   | PBin op x y => CBin op (tpa iv arrow x) (tpa iv arrow y)
+  | PDiv x y => CBin "/" (if div_needs_cast x y then CCast "double" (tpa iv arrow x) else tpa iv arrow x) (tpa iv arrow y)
+  | PNeg x => CUn "-" (tpa iv arrow x)
+  | PFun f x => CCall f (CCons (tpa iv arrow x) CNil)
   end.
 Definition tpred (iv : string) (arrow : bool) (p : pred) : cexp :=
   CBin (p_op p) (tpa iv arrow (p_l p)) (tpa iv arrow (p_r p)).
@@ -225,6 +236,9 @@ Fixpoint dpa (ev : event) (v : value) (a : pa) : res value :=
   | PDbl _ n d => ROk (VDbl (Qred (n # d)%Q))
   | PMeth m => call_method ev v m []
   | PBin op x y => rdo p <- dpa ev v x; rdo q <- dpa ev v y; arith op p q
+  | PDiv x y => rdo p <- dpa ev v x; rdo q <- dpa ev v y; arith "/" (if div_needs_cast x y then conv "double" p else p) q
+  | PNeg x => rdo p <- dpa ev v x; unary "-" p
+  | PFun f x => rdo p <- dpa ev v x; ROk (VSym f [math_arg p])
   end.
 Definition dpred (ev : event) (v : value) (p : pred) : res bool :=
   rdo x <- dpa ev v (p_l p); rdo y <- dpa ev v (p_r p); rdo r <- arith (p_op p) x y; truth r.
@@ -299,6 +313,10 @@ Fixpoint d_pa_fuel (fuel : nat) (s : sexp) : option pa :=
     | SList [SAtom "meth"; SAtom m] => Some (PMeth m)
     | SList [SAtom "bin"; SAtom op; a; b] =>
         match d_pa_fuel f a, d_pa_fuel f b with Some a', Some b' => Some (PBin op a' b') | _, _ => None end
+    | SList [SAtom "div"; a; b] =>
+        match d_pa_fuel f a, d_pa_fuel f b with Some a', Some b' => Some (PDiv a' b') | _, _ => None end
+    | SList [SAtom "neg"; a] => option_map PNeg (d_pa_fuel f a)
+    | SList [SAtom "fun"; SAtom g; a] => option_map (PFun g) (d_pa_fuel f a)
     | _ => None
     end
   end.
